@@ -63,7 +63,14 @@ var nHunks, nMultiHunk, nNoNL int64
 func checkPair(a, b []byte, oldName, newName string) {
 	run.Eval(1)
 	var out []byte
-	if pv, st := vlib.Try(func() { out = diff.Diff(oldName, a, newName, b) }); pv != nil {
+	ga, gaChanged := vlib.Guarded(a)
+	gb, gbChanged := vlib.Guarded(b)
+	defer func() {
+		if c := gaChanged() + gbChanged(); c != "" {
+			report("argument-modified", a, b, nil, "Diff: "+c)
+		}
+	}()
+	if pv, st := vlib.Try(func() { out = diff.Diff(oldName, ga, newName, gb) }); pv != nil {
 		report("diff-panic", a, b, nil, fmt.Sprintf("panic: %v at %s", pv, vlib.RepoFrame(st)))
 		return
 	}
